@@ -56,6 +56,7 @@ import NeumannModel.Parse.Text
                                     `case <0|1> <n≥1> <0|1> [FT] (FT FT)… [FT]`
             fframes min|full|all FT nesting depth the real parser needs for that print
             fsexp FT                the answer `full` gives for a tree (the expected parse of its prints)
+            fnormal expr|stmt <ftok>*  Full.printMin of the parse (FullProps.full_normal_form), or the error
             lex <ch>*               model of neumann_parser::tokenize (Lex.lean).  ch = `<cp>.<ws>.<alnum>.<up>`:
                                     code point, char::is_whitespace / is_alphanumeric as 0|1, char::to_uppercase
                                     as `+`-joined code points.  Answer: tokens `K@lo-hi`, K = `eof` | `name:<TokenKind
@@ -534,6 +535,11 @@ def parseStep (_ : Unit) (line : String) : Unit × String :=
       | some x, some e => ((), " ".intercalate ((Full.printWith x e).map showFTok)) | _, _ => bad
   | "fframes" :: mode :: ws => match fextraOf mode, readFTree ws with
       | some x, some e => ((), toString (Full.framesWith x e)) | _, _ => bad
+  | "fnormal" :: mode :: ws => match readMode mode, ws.mapM readFTok with
+      | some md, some ts => (match Full.parse md ts with
+          | .ok e => ((), "ok " ++ " ".intercalate ((Full.printMin e).map showFTok))
+          | r => ((), showFullRes ts.length r))
+      | _, _ => bad
   | "fsexp" :: ws => match readFTree ws with
       | some e => ((), "ok " ++ showFE e) | none => bad
   | "ptext" :: mode :: ws => match readMode mode, ws.mapM readCh with
